@@ -780,3 +780,33 @@ func TestPreparedStatements(t *testing.T) {
 		t.Error("delete through Query")
 	}
 }
+
+// A row holding two references to the same parent, one ON DELETE SET NULL and one ON DELETE CASCADE:
+// PostgreSQL re-checks a foreign key on UPDATE only when its columns change, so the intermediate
+// SET NULL update is not refused because of the other (still dangling) key, and the row is then removed.
+func TestSetNullAndCascadeOnOneRow(t *testing.T) {
+	db, e, err := Open(`
+	CREATE TABLE levels (id serial PRIMARY KEY, n integer);
+	CREATE TABLE labels (idlevel integer, idlevel3 integer NOT NULL, v integer);
+	ALTER TABLE labels ADD FOREIGN KEY (idlevel) REFERENCES levels ON DELETE SET NULL;
+	ALTER TABLE labels ADD FOREIGN KEY (idlevel3) REFERENCES levels ON DELETE CASCADE;
+	`)
+	if err != nil {
+		t.Fatal(err)
+	}
+	defer db.Close()
+	mustExec(t, db, "INSERT INTO levels (n) VALUES (1)")
+	mustExec(t, db, "INSERT INTO levels (n) VALUES (2)")
+	mustExec(t, db, "INSERT INTO labels (idlevel, idlevel3, v) VALUES (1, 1, 10)")
+	mustExec(t, db, "INSERT INTO labels (idlevel, idlevel3, v) VALUES (1, 2, 20)")
+	mustExec(t, db, "DELETE FROM levels WHERE id = 1")
+	if got := queryInts(t, db, "SELECT v FROM labels"); !reflect.DeepEqual(got, []int64{20}) {
+		t.Errorf("labels = %v", got)
+	}
+	if e.RowCount("levels") != 1 {
+		t.Errorf("levels has %d rows", e.RowCount("levels"))
+	}
+	// a plain UPDATE to a missing key is still refused
+	_, err = db.Exec("UPDATE labels SET idlevel3 = 9 WHERE v = 20")
+	wantClass(t, err, "foreign_key")
+}
